@@ -30,6 +30,15 @@ let gen_tup r ~(maxdata : int) : tup =
   { tp_head = rbytes r 18; tp_natts = zi natts; tp_flags2 = zi (rint r 32); tp_infomask = zi infomask;
     tp_hoff = zi hoff; tp_mid = mid; tp_data = rbytes r dl }
 
+(* the same flag words as [t] but another header length (8 more bytes of padding, or 8 fewer): nothing but t_hoff says where
+   the data starts (seeded change C02-17: a header memo keyed by the two flag words) *)
+let twin_of r (t : tup) ~(maxdata : int) : tup =
+  let bml = List.length t.tp_mid - (iz t.tp_hoff - 23 - (if iz t.tp_infomask land 1 = 1 then (iz t.tp_natts + 7) / 8 else 0)) in
+  let hoff = if iz t.tp_hoff + 8 <= 248 then iz t.tp_hoff + 8 else iz t.tp_hoff - 8 in
+  if hoff - 23 < bml then t else
+  { t with tp_head = rbytes r 18; tp_hoff = zi hoff; tp_mid = rbytes r bml @ List.init (hoff - 23 - bml) (fun _ -> byte_of_int 0);
+           tp_data = rbytes r (rint r (min maxdata 64 + 1)) }
+
 let tup_len (t : tup) = iz t.tp_hoff + List.length t.tp_data
 
 (* A page: choose pointers, place NORMAL tuples without overlap between upper and special. *)
@@ -53,7 +62,9 @@ let gen_page r : page * string =
         let maxdata = if mode = 4 then room - 24 else min 200 (room - 40) in
         if room < 48 then ({ lp_off = zi (rint r 100); lp_flags = zi 0; lp_len = zi 0 }, None)
         else begin
-          let t = gen_tup r ~maxdata:(max 0 maxdata) in
+          let t = match !placed with
+            | (_, prev) :: _ when mode <> 4 && rint r 3 = 0 -> twin_of r prev ~maxdata:(max 0 maxdata)
+            | _ -> gen_tup r ~maxdata:(max 0 maxdata) in
           let l = tup_len t in
           let gap = if mode = 2 || mode = 4 then 0 else (if rbool r then 0 else rint r 9) in
           let off = !pos - l - gap in
@@ -79,7 +90,13 @@ let gen_file r ~(maxblocks : int) : block list * byte list * string =
   let nb = match rint r 6 with 0 -> 0 | 1 -> 1 | _ -> rrange r 1 maxblocks in
   let tag = ref "" in
   let bs = List.init nb (fun _ -> if rint r 6 = 0 then BZero else (let (p, t) = gen_page r in tag := t; BPage p)) in
-  let tl = match rint r 5 with 0 -> rbytes r 1 | 1 -> rbytes r (rrange r 2 600) | 2 -> List.init 8191 (fun _ -> byte_of_int 0) | _ -> [] in
+  (* tails: also a well-formed page cut short by 1 .. 4000 bytes (its header, line pointers and the tuples stored low in it are
+     all there): an incomplete block yields nothing (seeded change C02-18) *)
+  let tl = match rint r 6 with 0 -> rbytes r 1 | 1 -> rbytes r (rrange r 2 600) | 2 -> List.init 8191 (fun _ -> byte_of_int 0)
+                             | 3 -> let (p, _) = gen_page r in
+                               let img = enc_page p in
+                               List.filteri (fun i _ -> i < 8192 - pick r [| 1; 8; 16; 100; 1000; 4000 |]) img
+                             | _ -> [] in
   (bs, tl, !tag)
 
 let scan ~tag ~s (v : byte list) (t : byte list) (vo : bool) =
